@@ -22,8 +22,8 @@ use std::sync::mpsc::{channel, Receiver, RecvTimeoutError};
 use std::time::Duration;
 use verif_harness::util::*;
 
-/// address-space limit of the worker in KiB (2 GiB): a length field must not make it abort
-const VM_LIMIT_KB: u64 = 2 * 1024 * 1024;
+/// address-space limit of the worker in KiB (512 MiB): a length field must not make it abort
+const VM_LIMIT_KB: u64 = 512 * 1024;
 
 struct Case {
     kind: String,
@@ -221,17 +221,23 @@ struct Worker {
     child: Child,
     stdin: ChildStdin,
     rx: Receiver<String>,
+    errfile: std::path::PathBuf,
 }
 
 fn spawn_worker() -> Worker {
     let exe = std::env::current_exe().expect("current_exe");
+    let dir = std::env::var("VERIF_WORK").unwrap_or_else(|_| std::env::temp_dir().to_string_lossy().to_string());
+    let errfile = std::path::Path::new(&dir).join(format!("c05-worker-{}.stderr", std::process::id()));
+    let errf = std::fs::File::create(&errfile).expect("stderr file");
     let mut child = Command::new("sh")
         .arg("-c")
         .arg(format!("ulimit -v {}; exec \"$0\" worker", VM_LIMIT_KB))
         .arg(exe)
+        .env("RUST_BACKTRACE", "0")
+        .env("MALLOC_ARENA_MAX", "1")
         .stdin(Stdio::piped())
         .stdout(Stdio::piped())
-        .stderr(Stdio::null())
+        .stderr(Stdio::from(errf))
         .spawn()
         .expect("spawn worker");
     let stdin = child.stdin.take().unwrap();
@@ -249,18 +255,32 @@ fn spawn_worker() -> Worker {
             }
         }
     });
-    Worker { child, stdin, rx }
+    Worker { child, stdin, rx, errfile }
 }
 
-fn how_died(child: &mut Child) -> String {
+/// the stage the worker was in when it died (it announces every stage on stderr)
+fn last_stage(err: &str) -> String {
+    err.lines().rev().find_map(|l| l.strip_prefix("@stage ")).unwrap_or("start").to_string()
+}
+
+fn how_died(w: &mut Worker) -> String {
     use std::os::unix::process::ExitStatusExt;
-    match child.wait() {
+    let st = w.child.wait();
+    let err = std::fs::read_to_string(&w.errfile).unwrap_or_default();
+    if err.contains("memory allocation of") {
+        return format!("{}:abort:alloc", last_stage(&err));
+    }
+    if err.contains("overflowed its stack") {
+        return format!("{}:abort:stack", last_stage(&err));
+    }
+    let stage = last_stage(&err);
+    match st {
         Ok(st) => match (st.signal(), st.code()) {
-            (Some(s), _) => format!("abort:sig{}", s),
-            (_, Some(c)) => format!("abort:exit{}", c),
-            _ => "abort:unknown".into(),
+            (Some(s), _) => format!("{}:abort:sig{}", stage, s),
+            (_, Some(c)) => format!("{}:abort:exit{}", stage, c),
+            _ => format!("{}:abort:unknown", stage),
         },
-        Err(_) => "abort:unknown".into(),
+        Err(_) => format!("{}:abort:unknown", stage),
     }
 }
 
@@ -277,6 +297,7 @@ fn worker_main() {
         let kind = it.next().unwrap_or("").to_string();
         let arg = it.next().unwrap_or("-").to_string();
         let data = unhex(it.next().unwrap_or("-"));
+        eprintln!("@stage start");
         let h = std::thread::Builder::new()
             .stack_size(8 << 20)
             .spawn(move || entries::exec_case(&kind, &arg, &data))
@@ -299,15 +320,24 @@ fn main() {
         println!("{}", entries::exec_case(&a.extra[0], &a.extra[1], &unhex(&a.extra[2])));
         return;
     }
-    let budget = Duration::from_secs(if a.thorough { 30 } else { 15 });
+    if a.mode == "gen" {
+        for i in case_indices(&a) {
+            let t = std::time::Instant::now();
+            let c = gen_case(a.seed, i, a.thorough);
+            println!("#{} {} {} {} {}us", i, c.kind, c.arg, c.data.len(), t.elapsed().as_micros());
+        }
+        return;
+    }
+    let budget = Duration::from_secs(if a.thorough { 40 } else { 20 });
     let mut out = Out::new();
     let mut w = spawn_worker();
     for i in case_indices(&a) {
         let c = gen_case(a.seed, i, a.thorough);
         let hexd = hex(&c.data);
+        let t0 = std::time::Instant::now();
         let sent = writeln!(w.stdin, "{} {} {}", c.kind, c.arg, hexd).and_then(|_| w.stdin.flush());
         let outcome = if sent.is_err() {
-            let d = how_died(&mut w.child);
+            let d = how_died(&mut w);
             w = spawn_worker();
             d
         } else {
@@ -316,20 +346,26 @@ fn main() {
                 Err(RecvTimeoutError::Timeout) => {
                     let _ = w.child.kill();
                     let _ = w.child.wait();
+                    let st = last_stage(&std::fs::read_to_string(&w.errfile).unwrap_or_default());
                     w = spawn_worker();
-                    "hang".into()
+                    format!("{}:hang", st)
                 }
                 Err(RecvTimeoutError::Disconnected) => {
-                    let d = how_died(&mut w.child);
+                    let d = how_died(&mut w);
                     w = spawn_worker();
                     d
                 }
             }
         };
+        if std::env::var("C05_TIMING").is_ok() {
+            eprintln!("#{} {} {} {}ms {}", i, c.kind, c.arg, t0.elapsed().as_millis(), &outcome[..outcome.len().min(60)]);
+        }
         let shown = if c.data.len() <= 3000 { hexd } else { format!("big:{}", c.data.len()) };
         let muts = if c.muts.is_empty() { "valid".to_string() } else { c.muts.join("+") };
         out.line(&format!("#{} {} {} {} {} {}", i, c.kind, c.arg, muts, shown, outcome));
     }
+    let errfile = w.errfile.clone();
     drop(w.stdin);
     let _ = w.child.wait();
+    let _ = std::fs::remove_file(errfile);
 }
